@@ -431,7 +431,7 @@ const TOKENS: [&str; 34] = [
 
 /// String over XML 1.0 characters except carriage return.
 pub fn xml_string(s: &mut Src) -> String {
-    match s.weighted(&[2, 10, 2, 1]) {
+    match s.weighted(&[40, 200, 40, 20, 30, 3]) {
         0 => String::new(),
         1 => {
             let mut o = String::new();
@@ -441,6 +441,28 @@ pub fn xml_string(s: &mut Src) -> String {
             o
         }
         2 => "plain text value".to_string(),
+        4 => {
+            // arbitrary XML 1.0 characters (no carriage return)
+            let mut o = String::new();
+            for _ in 0..1 + s.below(12) {
+                let c = match s.weighted(&[3, 2, 1]) {
+                    0 => s.range(0x20, 0x7f) as u32,
+                    1 => s.range(0x80, 0xFFFD) as u32,
+                    _ => s.range(0x10000, 0x10FFFF) as u32,
+                };
+                match char::from_u32(c) {
+                    Some(ch) => o.push(ch),
+                    None => o.push('\u{E000}'), // a surrogate code point: not a character
+                }
+            }
+            o
+        }
+        5 => {
+            // long: crosses several pages of the XML section; now and then beyond 64 KiB
+            let unit = *s.pick(&["x", "ab ]]> cd", "\u{1F600}&<", "line\n"]);
+            let n = if s.chance(1, 6) { 70_000 } else { 300 + s.below(4000) as usize };
+            unit.repeat(n / unit.len() + 1)
+        }
         _ => {
             let mut o = String::new();
             for _ in 0..s.below(5) {
